@@ -27,7 +27,8 @@ RULE = ('fixed corpus (every hostile spelling of "..", sibling/parent targets, m
         'Range grammar x file sizes 0/1/10/256/5000, both front ends) + seeded random paths of 1-6 segments over an alphabet '
         'of hostile segments and real names, x 2 docroot layouts x 4 mount points x dirlisting on/off x {HTTP, direct}, + '
         'seeded random Range headers (1-4 specs: in-bounds, open, suffix, reversed, beyond EOF, overlapping, non-numeric, '
-        'empty element, no "="); thorough adds every path of <= 5 segments over a 13-symbol alphabet for both front ends. '
+        'empty element, no "="); a third of the HTTP cases are the 2nd-4th request on a persistent connection that already served full '
+        'files, partial content, listings or refusals; thorough adds every path of <= 5 segments over a 13-symbol alphabet for both front ends. '
         'A path case is non-trivial when it contains a hostile segment, a name that only exists outside the root, or is '
         'glued to / not below the mount point; a range case is non-trivial when some spec is not a plain in-bounds a-b. '
         'distinct = hash of the declarative case')
@@ -47,7 +48,8 @@ REQUIRED = ['reference_selfcheck', 'audit_hook_live', 'audit_open_inside_root', 
             'encoded_dotdot', 'double_encoded_dotdot', 'backslash_segment', 'sibling_target', 'parent_secret_target',
             'mounted_under_prefix', 'glued_to_mount', 'not_below_mount', 'percent_in_file_name',
             'range_206_single', 'range_206_multipart', 'range_416', 'range_malformed_full_200',
-            'range_open_ended', 'range_suffix', 'range_beyond_eof', 'range_reversed', 'range_empty_file']
+            'range_open_ended', 'range_suffix', 'range_beyond_eof', 'range_reversed', 'range_empty_file',
+            'request_on_kept_alive_connection', 'request_after_full_file_on_same_connection', 'request_after_partial_content_on_same_connection']
 REQUIRED_OBLIGATIONS = ['MARKER', 'AUDIT', 'NO_5XX', 'ANSWERED', 'CONTENT', 'RANGE', 'CLEN']
 WORKER_TIMEOUT = {'quick': 300, 'thorough': 1500}
 
@@ -152,6 +154,7 @@ class Obs:
         self.how = ''           # 'http' | 'response' | 'declined' | 'httperror' | 'listing' | 'exception:<type>'
         self.audit = []
         self.late_bytes = 0     # bytes written after the connection was closed (not delivered)
+        self.kept = []          # HTTP only: statuses of the earlier requests answered on the same, still open connection
 
 
 class World:
@@ -219,7 +222,7 @@ class World:
         return e['w']
 
     # -- one request -----------------------------------------------------------------------------
-    def request(self, fe, li, neutral, mount, dirlisting, path, range_header):
+    def request(self, fe, li, neutral, mount, dirlisting, path, range_header, before=()):
         w = self.env(fe, li, neutral, mount, dirlisting)
         w.take()
         del w.exceptions[:]
@@ -228,7 +231,7 @@ class World:
         _AUDIT['on'] = True
         try:
             if fe == 'http':
-                self._http(w, o, path, range_header)
+                self._http(w, o, path, range_header, before)
             else:
                 self._direct(w, o, path, range_header)
         finally:
@@ -236,9 +239,24 @@ class World:
         o.audit = _AUDIT['log']
         return o
 
-    def _http(self, w, o, path, range_header):
+    def _http(self, w, o, path, range_header, before=()):
         s = self.c['FakeSock']()
         try:
+            # earlier requests on the same (persistent) connection: the request under test must be answered for its own path and headers
+            for bpath, brange in before:
+                req = b'GET ' + bpath.encode('utf-8', 'surrogateescape') + b' HTTP/1.1\r\nHost: localhost\r\n'
+                if brange is not None:
+                    req += b'Range: ' + brange.encode('latin-1') + b'\r\n'
+                w.feed(s, [req + b'\r\n'])
+                out = w.take()
+                if any(x[0] == 'close' and x[1] is s for x in out):
+                    s.close()
+                    s = self.c['FakeSock']()       # the server ended that connection: the next request needs a new one
+                    o.kept = []
+                else:
+                    m = re.match(rb'^HTTP/1\.[01] ([0-9]{3}) ', b''.join(x[2] for x in out if x[0] == 'write' and x[1] is s))
+                    o.kept.append(int(m.group(1)) if m else 0)
+            _AUDIT['log'] = []
             req = b'GET ' + path.encode('utf-8', 'surrogateescape') + b' HTTP/1.1\r\nHost: localhost\r\n'
             if range_header is not None:
                 req += b'Range: ' + range_header.encode('latin-1') + b'\r\n'
@@ -449,8 +467,15 @@ def evaluate(world, case, neutral=False):
     header = None
     if case['family'] == 'range':
         header = case['prefix'] + case['sep'].join(case['specs']) if case['specs'] is not None else None
-    o = world.request(case['fe'], case['layout'], neutral, mount, case.get('dirlisting', False), path, header)
+    before = [(('' if mount is None else mount.rstrip('/')) + '/' + rel, rng_h) for rel, rng_h in case.get('before', ())] if case['fe'] == 'http' else []
+    o = world.request(case['fe'], case['layout'], neutral, mount, case.get('dirlisting', False), path, header, before)
     info['status'] = o.status
+    if o.kept:
+        counters['request_on_kept_alive_connection'] = 1
+        if 200 in o.kept:
+            counters['request_after_full_file_on_same_connection'] = 1
+        if 206 in o.kept:
+            counters['request_after_partial_content_on_same_connection'] = 1
     if o.late_bytes:
         counters['bytes_written_after_close_ignored'] = 1
     counters[case['fe'] + '_requests'] = 1
@@ -752,6 +777,15 @@ def corpus():
                 cases.append(dict(path_case(fe, li, mount, True, ['']), path=mount))
             for t in ['f10.txt', '../secret.txt', 'sub/']:
                 cases.append(path_case(fe, li, '/', True, t.split('/')))
+    # persistent connections: the request under test is the 2nd-4th on its connection, after full-file, partial, listing, refused answers
+    preludes = [[['f10.txt', None]], [['big.txt', None], ['sub/in.txt', None]], [['f10.txt', 'bytes=2-4']], [['sub/', None]],
+                [['nonexistent', None], ['f10.txt', None]], [['big.txt', 'bytes=0-1,5-6']], [['e0.txt', None], ['pA.txt', None], ['sub2/other.bin', None]]]
+    for pre in preludes:
+        for li, mount in ((0, None), (1, '/static')):
+            for t in ['sub/in.txt', 'big.txt', 'f10.txt', 'sub/', 'nonexistent', '../secret.txt', '%2e%2e/secret.txt', '../{sib}/x', 'sub2/other.bin']:
+                cases.append(dict(path_case('http', li, mount, True, t.split('/')), before=pre))
+            for fname, specs in (('f10.txt', ['2-5']), ('big.txt', ['-7']), ('big.txt', ['0-1', '9-12']), ('f10.txt', ['50-']), ('sub2/other.bin', ['x-y'])):
+                cases.append(dict(range_case('http', li, mount, fname, specs), before=pre))
     # Range grammar: every class x every size, both front ends
     for fe in ('http', 'direct'):
         for fname in RANGE_FILES:
@@ -792,7 +826,18 @@ def gen_path(rng):
         below = not (0.12 <= r < 0.18)
     else:
         below = True
-    return path_case(fe, li, mount, dl, segs, glue=glue, below=below)
+    case = path_case(fe, li, mount, dl, segs, glue=glue, below=below)
+    if fe == 'http' and rng.random() < 0.35:
+        case['before'] = gen_before(rng)
+    return case
+
+
+def gen_before(rng):
+    out = []
+    for _ in range(rng.choice([1, 1, 2, 3])):
+        rel = rng.choice(['f10.txt', 'big.txt', 'sub/in.txt', 'sub2/other.bin', 'e1.txt', 'sub/', 'nonexistent', 'pA.txt'])
+        out.append([rel, rng.choice([None, None, None, 'bytes=1-3', 'bytes=-2', 'bytes=0-0,2-2'])])
+    return out
 
 
 def gen_range(rng):
@@ -836,7 +881,10 @@ def gen_range(rng):
         sep = rng.choice([', ', ' ,', ' , '])
     li = rng.randrange(len(LAYOUTS))
     mount = rng.choice([None, None, '/static'])
-    return range_case(fe, li, mount, fname, specs, prefix=prefix, sep=sep)
+    case = range_case(fe, li, mount, fname, specs, prefix=prefix, sep=sep)
+    if fe == 'http' and rng.random() < 0.35:
+        case['before'] = gen_before(rng)
+    return case
 
 
 def exhaustive(fe, prefix):
